@@ -867,7 +867,8 @@ func boundedListVerdict(opts *RunOpts, prop string, known []KnownFinding, obl, b
 // c02ResurrectionClass: the recorded known finding of C02 for schemas with more
 // than three relations (the cases with up to three are listed one by one): a
 // Remove-consistency failure "X and Y active, Y removes X" where X is the Add
-// target of a state that is active in the outcome (X was re-added through Add).
+// target of a state that is active in the outcome (X was re-added through Add), or
+// the remover Y is (it was activated through Add after X had been kept).
 func c02ResurrectionClass(f string) bool {
 	i := strings.Index(f, "(remove: ")
 	if i < 0 || !strings.HasPrefix(f, "[") {
@@ -882,13 +883,18 @@ func c02ResurrectionClass(f string) bool {
 		return false
 	}
 	x := w[0]
+	y := ""
+	if len(w) >= 3 {
+		y = w[2] // "X and Y active, Y removes X"
+	}
 	k := strings.Index(f, "=> {")
 	if k < 0 {
 		return false
 	}
 	after := strings.Split(f[k+4:strings.Index(f[k:], "}")+k], ",")
 	for _, r := range rels {
-		if len(r) == 3 && r[1] == '+' && string(r[2]) == x {
+		// the removed state X, or the remover Y, was (re-)activated through an Add relation of an active state
+		if len(r) == 3 && r[1] == '+' && (string(r[2]) == x || string(r[2]) == y) {
 			for _, a := range after {
 				if a == string(r[0]) {
 					return true
